@@ -6,8 +6,9 @@ Method.client_method_name, Method.transport_safe_name) renames iff reserved, by 
 dotted segment, and leaves everything else untouched (the wire-side string is its input).
 CrossHair/z3 (selector menus): proto file-name disambiguation (closure lifted from API.build) ends outside
 the forbidden set and the visited set; the module name bound by the rendered import line is the head of the
-rendered type reference (alias / module / module_pb2).  The client harness (C05) covers reserved flattened
-parameters end-to-end (class_ / from_ sent as class / from).
+rendered type reference (alias / module / module_pb2).  Reserved flattened parameters (class_ / from_ / dotted
+book.class) are run end-to-end on the emitted client methods with the C05 harness; the RPC wire path of keyword-named
+RPCs is diffed against the descriptors (shared with C03).
 """
 from __future__ import annotations
 
@@ -46,6 +47,14 @@ def body(chk: core.Check):
             chk.ok("rpc-wire-path (concrete diff)", k)
         for k, text in bad.items():
             chk.violation(k, text, {"kind": "stub-table", "diff_key": k})
+    if chk.only("flattened"):
+        # reserved-word flattened parameters (top-level `class`/`from`, dotted leaf `book.class`) end-to-end on the emitted
+        # sync/async client methods: parameter is <word>_, the wire key is the original (shared client harness, C05)
+        from checks import _client
+        _client.common(chk)
+        gc = _client.render(chk, everything=True)   # incl. samples/tests of the keyword-named RPC `Import`
+        _client.run_funcs(chk, gc, ["flat_tag_book", "flat_classify_book"], "reserved-flattened-parameters", 300,
+                          partitions=_client.KIND_PARTS)
     if chk.only("names"):
         hm = ch.load_module(H)
         chk.encoded("gapic/schema/api.py: API.build.disambiguate_keyword_sanitize_fname (+ invalid_module_names)", hm.LIFTED_SRC)
@@ -71,6 +80,9 @@ def replay(chk, data):
         from lib import apis, gen
         g = gen.generate(apis.client_api(), parameter="transport=grpc+rest", service_yaml=apis.CLIENT_SERVICE_YAML)
         return _c03.table_diff(g)[1].get(data["diff_key"])
+    if str(data.get("harness", "")).endswith("h_client.py"):
+        from checks import _client
+        return _client.replay(chk, data)
     rep, detail = ch.replay_call(os.path.join(core.VERIF, data["harness"]), data["call"], data.get("env"))
     return f"{data['call']} -> {detail}" if rep else None
 
